@@ -111,7 +111,7 @@ impl BlockReader {
 //@spec
     requires blockoffset as int * blocksz as int + blockindex as int <= u64::MAX
     ensures r as int == blockoffset as int * blocksz as int + blockindex as int
-//@before "BlockReader::file_offset_at_block_offset(blockoffset, blocksz)"
+//@at_entry
     proof { lemma_mul_nonnegative(blockoffset as int, blocksz as int); }
 //@end
 
@@ -125,7 +125,7 @@ impl BlockReader {
 //@spec
     requires blocksz >= 1
     ensures r as int == fileoffset as int % blocksz as int, (r as int) < blocksz as int
-//@before "(fileoffset"
+//@at_entry
     proof {
         lemma_fundamental_div_mod(fileoffset as int, blocksz as int);
         lemma_mod_bound(fileoffset as int, blocksz as int);
@@ -146,7 +146,7 @@ impl BlockReader {
 //@spec
     requires blocksz >= 1
     ensures r as int == sp_count_blocks(filesz as int, blocksz as int)
-//@before "filesz / blocksz"
+//@at_entry
     proof {
         lemma_fundamental_div_mod(filesz as int, blocksz as int);
         lemma_mod_bound(filesz as int, blocksz as int);
@@ -171,7 +171,7 @@ impl BlockReader {
         r as int == sp_blocksz_at(*blockoffset as int, *blocksz as int, *filesz as int),
         *filesz > 0 ==> 0 < r <= *blocksz,
         *filesz == 0 ==> r == 0,
-//@before "if filesz == &0"
+//@at_entry
     proof { lemma_blocksz_at(*blockoffset as int, *blocksz as int, *filesz as int); }
 //@mutate "remainder != 0" "remainder == 0"
 //@end
@@ -180,7 +180,7 @@ impl BlockReader {
 //@spec
     requires self.wf()
     ensures r as int == sp_last(self.sp_filesz(), self.blocksz as int)
-//@before "(BlockReader::count_blocks"
+//@at_entry
     proof { lemma_count_pos(self.sp_filesz(), self.blocksz as int); }
 //@mutate "as BlockOffset) - 1" "as BlockOffset) - 0"
 //@end
@@ -235,7 +235,7 @@ impl LinePart {
         lp_wf(r),
         r.blockp == blockp, r.blocki_beg == blocki_beg, r.blocki_end == blocki_end,
         r.fileoffset == fileoffset, r.blockoffset == blockoffset, r.blocksz == blocksz,
-//@before "let fo1 ="
+//@at_entry
         proof {
             lemma_fundamental_div_mod(fileoffset as int, blocksz as int);
             lemma_mod_bound(fileoffset as int, blocksz as int);
@@ -330,7 +330,7 @@ impl Line {
     ensures
         r as int == self.lineparts@.last().fileoffset + lp_len(self.lineparts@.last()) - 1,
         r as int == self.lineparts@[0].fileoffset + parts_len(self.lineparts@) - 1,
-//@before "let last_li"
+//@at_entry
         proof { lemma_parts_len(*self, self.lineparts@.len() as int); assert(self.lineparts@.take(self.lineparts@.len() as int) =~= self.lineparts@); }
 //@end
 //@cut fn path=src/data/line.rs impl=Line name=blockoffset_first ret=r
@@ -352,7 +352,7 @@ impl Line {
 //@spec
     requires line_wf(*self), parts_len(self.lineparts@) + self.lineparts@[0].fileoffset <= u64::MAX
     ensures r as int == parts_len(self.lineparts@)   // C12: independent of how block boundaries cut the line
-//@before "(self.fileoffset_end()"
+//@at_entry
         proof { lemma_parts_len(*self, self.lineparts@.len() as int); assert(self.lineparts@.take(self.lineparts@.len() as int) =~= self.lineparts@); }
 //@mutate "+ 1) as usize" "+ 0) as usize"
 //@end
@@ -381,7 +381,7 @@ impl Line {
                 assert(self.lineparts@.take(self.lineparts@.len() as int) =~= self.lineparts@);
                 lemma_parts_len_mono(*self, k + 1, self.lineparts@.len() as int);
             }
-//@before "cb" 3
+//@before_tail
         proof { assert(self.lineparts@.take(self.lineparts@.len() as int) =~= self.lineparts@); }
 //@end
 }
@@ -426,7 +426,9 @@ pub proof fn lemma_blocksz_at(bo: int, bsz: int, filesz: int)
         filesz > 0 && bo < sp_last(filesz, bsz) ==> sp_blocksz_at(bo, bsz, filesz) == bsz,
         filesz > 0 && bo == sp_last(filesz, bsz) && filesz % bsz != 0 ==> sp_blocksz_at(bo, bsz, filesz) == filesz % bsz,
         filesz > 0 && bo == sp_last(filesz, bsz) && filesz % bsz == 0 ==> sp_blocksz_at(bo, bsz, filesz) == bsz,
+        filesz == 0 ==> sp_blocksz_at(bo, bsz, filesz) == 0,
 {
+    if filesz == 0 { assert(bo == 0); assert(bo * bsz == 0) by (nonlinear_arith) requires bo == 0; }
     lemma_count_pos(filesz, bsz);
     lemma_fundamental_div_mod(filesz, bsz);
     lemma_mod_bound(filesz, bsz);
